@@ -136,11 +136,12 @@ PROPS = {
         level_note="Wildcards are single-label (*.foo.com). The vault/consul/http sources share the watch loop; their transport is not exercised. When two certificates name the same host the later one is expected to win (that is what an index built in order does); first-wins would be flagged although the statement does not order them - no such set is in the alphabet except via the hand-picked pool where names are distinct.",
         units=[
         unit("c11-select", "cert", ["cert/c11_test.go"], "^TestVerifC11(Select|Publish)", engines=SCHED + ["vhook"]),
+        unit("c11-listeners", ".", MAIN_COMMON + ["main/c16_test.go", "main/c18_sig_test.go", "main/c11_listener_test.go"], "^TestVerifC11Listeners", engines=["vhook"]),
         unit("c11-load", "cert", ["cert/c11_test.go", "cert/c11_load_test.go"], "^TestVerifC11Load", engines=SCHED + ["vhook"], rewrite=[{"files": ["cert/load.go"], "opts": ["-sortrange=pemBlocks", "-only", "loadCertificates"]}]),
         unit("c11-watch", "cert", ["cert/c11_test.go"], "^TestVerifC11Watch", engines=SCHED + ["vhook"], rewrite=[{"files": ["cert/watch.go"], "opts": ["-sel", "time.Sleep=vhook.Sleep"]}]),
         unit("c11-sched", "cert", ["cert/c11_test.go"], "^TestVerifC11Sched", engines=SCHED + ["vhook"], race=True, sched_env={"GOMAXPROCS": "1"}, shards={"quick": 1, "thorough": 16},
              rewrite=[{"files": ["cert/store.go"], "opts": ["-imports", "-stmt", "-only", "SetCertificates,certstore,getCertificate"]}, {"files": ["cert/source.go"], "opts": ["-imports", "-go", "-chan", "-only", "TLSConfig"]}]),
-    ], layers={"quick": ["c11-select", "c11-publish", "c11-load", "c11-watch", "c11-sched"], "thorough": ["c11-select", "c11-publish", "c11-load", "c11-watch", "c11-sched"]}),
+    ], layers={"quick": ["c11-select", "c11-publish", "c11-listeners", "c11-load", "c11-watch", "c11-sched"], "thorough": ["c11-select", "c11-publish", "c11-listeners", "c11-load", "c11-watch", "c11-sched"]}),
     "C19": dict(level="exploration", engine="benum",
         technique="bounded-exhaustive configuration product through transport.SetConfig and main.newHTTPProxy, plus a causal timeout scenario matrix",
         level_text="All 3^5 combinations of the five proxy transport options are pushed through the real transport.SetConfig and the three ways fabio builds transports (default, skip-verify, per-route host override) and read back field by field; the response-header timeout is additionally exercised end to end through ServeHTTP against an upstream that holds its headers until the harness releases it.",
